@@ -9,7 +9,12 @@
 //   - per source file, how often heimdall.ErrArgument is mentioned at all, and the arguments of the CausedBy calls
 //     that are not part of such a constructor expression;
 //   - the condition under which compositeSubjectCreator.Execute goes on to the next authenticator, and the shape of
-//     its loop.
+//     its loop. The condition may be written in place, with the help of local variables of the error branch that are
+//     defined once, or as a call of a function of the package / a method of compositeSubjectCreator whose body is
+//     `x := <expr>`… `return <expr>` (type inliner): such calls and variables are replaced by what they stand for
+//     before the condition is read, so that extracting the condition into a helper yields the same facts. The
+//     condition the model knows is ONE disjunction (besides the bound check); every further conjunct, a negation, a
+//     helper of another shape is reported as an unknown condition or aborts the extraction.
 //
 // It fails closed: any shape it does not understand aborts the extraction with exit status 3.
 package main
@@ -340,6 +345,300 @@ func disjuncts(x ast.Expr, op token.Token) []ast.Expr {
 	return []ast.Expr{x}
 }
 
+// ---- conditions written with the help of functions / methods of the same package and of local variables ---------
+
+// inliner rewrites a condition of compositeSubjectCreator.Execute into an expression over the variables of Execute:
+// a call of a function of the package or of a method of compositeSubjectCreator whose body consists of `x := <expr>`
+// definitions followed by one `return <expr>` is replaced by that expression (parameters replaced by the arguments,
+// locals by their definitions). Everything else is left as it stands (and then is no condition the model knows) or
+// aborts the extraction.
+type inliner struct {
+	funcs   map[string]*ast.FuncDecl    // functions of the package
+	methods map[string]*ast.FuncDecl    // methods of compositeSubjectCreator
+	imports map[*ast.FuncDecl]*ast.File // the file a declaration stands in
+	home    *ast.File                   // the file of Execute
+	recv    string                      // the receiver variable of Execute
+}
+
+func importsOf(f *ast.File) map[string]string {
+	res := map[string]string{}
+
+	for _, imp := range f.Imports {
+		path := strings.Trim(imp.Path.Value, "\"`")
+		name := path[strings.LastIndex(path, "/")+1:]
+
+		if imp.Name != nil {
+			name = imp.Name.Name
+		}
+
+		res[name] = path
+	}
+
+	return res
+}
+
+func newInliner(path string, home *ast.File, recv string) *inliner {
+	in := &inliner{
+		funcs: map[string]*ast.FuncDecl{}, methods: map[string]*ast.FuncDecl{},
+		imports: map[*ast.FuncDecl]*ast.File{}, home: home, recv: recv,
+	}
+
+	entries, err := os.ReadDir(filepath.Dir(path))
+	if err != nil {
+		fail(nil, "%v", err)
+	}
+
+	for _, e := range entries {
+		name := e.Name()
+		if e.IsDir() || !strings.HasSuffix(name, ".go") || strings.HasSuffix(name, "_test.go") {
+			continue
+		}
+
+		f, err := parser.ParseFile(fset, filepath.Join(filepath.Dir(path), name), nil, parser.SkipObjectResolution)
+		if err != nil {
+			fail(nil, "%v", err)
+		}
+
+		for _, d := range f.Decls {
+			fd, ok := d.(*ast.FuncDecl)
+			if !ok || fd.Body == nil {
+				continue
+			}
+
+			switch {
+			case fd.Recv == nil:
+				in.funcs[fd.Name.Name] = fd
+			case strings.TrimPrefix(render(fd.Recv.List[0].Type), "*") == "compositeSubjectCreator":
+				in.methods[fd.Name.Name] = fd
+			default:
+				continue
+			}
+
+			in.imports[fd] = f
+		}
+	}
+
+	return in
+}
+
+// pure: an argument whose evaluation has no effect (so that it may be copied or dropped)
+func pure(x ast.Expr) bool {
+	ok := true
+
+	ast.Inspect(x, func(n ast.Node) bool {
+		switch v := n.(type) {
+		case *ast.CallExpr:
+			if id, isID := v.Fun.(*ast.Ident); !isID || id.Name != "len" {
+				ok = false
+			}
+		case *ast.FuncLit:
+			ok = false
+		case *ast.UnaryExpr:
+			if v.Op == token.ARROW {
+				ok = false
+			}
+		}
+
+		return ok
+	})
+
+	return ok
+}
+
+// paren puts x into parentheses unless it is atomic (so that it can stand for an identifier anywhere)
+func paren(x ast.Expr) ast.Expr {
+	switch x.(type) {
+	case *ast.Ident, *ast.BasicLit, *ast.SelectorExpr, *ast.CallExpr, *ast.IndexExpr, *ast.ParenExpr:
+		return x
+	}
+
+	return &ast.ParenExpr{X: x}
+}
+
+// expr resolves x. env: what the identifiers in scope stand for; in: the declaration x is part of (nil: Execute)
+func (in *inliner) expr(x ast.Expr, env map[string]ast.Expr, decl *ast.FuncDecl, depth int) ast.Expr {
+	switch v := x.(type) {
+	case *ast.ParenExpr:
+		return &ast.ParenExpr{X: in.expr(v.X, env, decl, depth)}
+	case *ast.BinaryExpr:
+		return &ast.BinaryExpr{X: in.expr(v.X, env, decl, depth), Op: v.Op, Y: in.expr(v.Y, env, decl, depth)}
+	case *ast.UnaryExpr:
+		return &ast.UnaryExpr{Op: v.Op, X: in.expr(v.X, env, decl, depth)}
+	case *ast.BasicLit:
+		return &ast.BasicLit{Kind: v.Kind, Value: v.Value}
+	case *ast.Ident:
+		if r, ok := env[v.Name]; ok {
+			return r
+		}
+
+		if decl != nil {
+			// inside a helper: nothing but builtins may be referred to besides parameters and locals
+			switch v.Name {
+			case "len", "nil", "true", "false":
+			default:
+				fail(v, "%s refers to %s, which is neither a parameter nor a local variable", decl.Name.Name, v.Name)
+			}
+		}
+
+		// (copies carry no source position: the rewritten expression is printed in one canonical layout)
+		return ast.NewIdent(v.Name)
+	case *ast.SelectorExpr:
+		if id, ok := v.X.(*ast.Ident); ok {
+			if _, bound := env[id.Name]; !bound {
+				// a package (inside a helper nothing else is left): the names the condition is recognised by have to
+				// stand for the packages they stand for in today's source, in whichever file the helper is declared
+				file := in.home
+				if decl != nil {
+					file = in.imports[decl]
+				}
+
+				path, imported := importsOf(file)[id.Name]
+				if !imported && decl != nil {
+					fail(v, "%s refers to %s, which is neither a parameter, a local variable nor an imported package",
+						decl.Name.Name, id.Name)
+				}
+
+				if imported && ((id.Name == "errors" && path != "errors") || (id.Name == "heimdall" && path != heimdallPkg)) {
+					fail(v, "%s stands for package %s here", id.Name, path)
+				}
+
+				return &ast.SelectorExpr{X: ast.NewIdent(id.Name), Sel: ast.NewIdent(v.Sel.Name)}
+			}
+		}
+
+		return &ast.SelectorExpr{X: in.expr(v.X, env, decl, depth), Sel: ast.NewIdent(v.Sel.Name)}
+	case *ast.IndexExpr:
+		return &ast.IndexExpr{X: in.expr(v.X, env, decl, depth), Index: in.expr(v.Index, env, decl, depth)}
+	case *ast.CallExpr:
+		args := make([]ast.Expr, len(v.Args))
+		for i, a := range v.Args {
+			args[i] = in.expr(a, env, decl, depth)
+		}
+
+		var (
+			helper *ast.FuncDecl
+			self   ast.Expr
+		)
+
+		switch fun := v.Fun.(type) {
+		case *ast.Ident:
+			if _, shadowed := env[fun.Name]; !shadowed {
+				helper = in.funcs[fun.Name]
+			}
+
+			if helper == nil {
+				if decl != nil && fun.Name != "len" {
+					fail(v, "%s calls %s, which is no function of the package", decl.Name.Name, fun.Name)
+				}
+
+				return &ast.CallExpr{Fun: ast.NewIdent(fun.Name), Args: args}
+			}
+		case *ast.SelectorExpr:
+			sel, _ := in.expr(fun, env, decl, depth).(*ast.SelectorExpr)
+			if sel == nil {
+				fail(v, "call of %s is not understood", render(fun))
+			}
+
+			self = sel.X
+			if render(strip(self)) == in.recv {
+				helper = in.methods[sel.Sel.Name]
+			}
+
+			if helper == nil {
+				return &ast.CallExpr{Fun: sel, Args: args}
+			}
+		default:
+			if decl != nil {
+				fail(v, "%s: call of %s", decl.Name.Name, render(v.Fun))
+			}
+
+			return v
+		}
+
+		return in.inline(v, helper, self, args, depth)
+	}
+
+	if decl != nil {
+		fail(x, "%s: expression %s is not understood", decl.Name.Name, render(x))
+	}
+
+	return x
+}
+
+// inline: the value of the call helper(args) (self: the receiver, if helper is a method)
+func (in *inliner) inline(call *ast.CallExpr, helper *ast.FuncDecl, self ast.Expr, args []ast.Expr, depth int) ast.Expr {
+	name := helper.Name.Name
+
+	if depth > 8 { //nolint:mnd
+		fail(call, "calls nested too deeply (recursion?) at %s", name)
+	}
+
+	if helper.Type.TypeParams != nil || helper.Type.Results == nil || len(helper.Type.Results.List) != 1 ||
+		len(helper.Type.Results.List[0].Names) != 0 || render(helper.Type.Results.List[0].Type) != "bool" {
+		fail(helper, "%s is used in the condition of the fallback but does not return exactly one unnamed bool", name)
+	}
+
+	env := map[string]ast.Expr{}
+
+	if self != nil && len(helper.Recv.List[0].Names) == 1 {
+		env[helper.Recv.List[0].Names[0].Name] = self
+	}
+
+	var params []string
+
+	for _, fld := range helper.Type.Params.List {
+		if _, variadic := fld.Type.(*ast.Ellipsis); variadic || len(fld.Names) == 0 {
+			fail(helper, "%s: variadic or unnamed parameters", name)
+		}
+
+		for _, n := range fld.Names {
+			params = append(params, n.Name)
+		}
+	}
+
+	if len(params) != len(args) {
+		fail(call, "%s called with %d arguments, declared with %d parameters", name, len(args), len(params))
+	}
+
+	for i, p := range params {
+		if !pure(args[i]) {
+			fail(call, "argument %s of %s may have an effect", render(args[i]), name)
+		}
+
+		if p != "_" {
+			env[p] = paren(args[i])
+		}
+	}
+
+	for i, st := range helper.Body.List {
+		switch v := st.(type) {
+		case *ast.AssignStmt:
+			id, ok := v.Lhs[0].(*ast.Ident)
+			if !ok || v.Tok != token.DEFINE || len(v.Lhs) != 1 || len(v.Rhs) != 1 || id.Name == "_" {
+				fail(v, "%s: statement %s is not understood", name, render(v))
+			}
+
+			if _, twice := env[id.Name]; twice {
+				fail(v, "%s: %s is defined more than once", name, id.Name)
+			}
+
+			env[id.Name] = paren(in.expr(v.Rhs[0], env, helper, depth+1))
+		case *ast.ReturnStmt:
+			if i != len(helper.Body.List)-1 || len(v.Results) != 1 {
+				fail(v, "%s: return statement is not understood", name)
+			}
+
+			return paren(in.expr(v.Results[0], env, helper, depth+1))
+		default:
+			fail(st, "%s: statement %s is not understood", name, render(st))
+		}
+	}
+
+	fail(helper, "%s does not end with a return statement", name)
+
+	return nil
+}
+
 func composite(path string) string {
 	f := parse(path)
 
@@ -492,6 +791,55 @@ func composite(path string) string {
 		breaks  bool
 	)
 
+	// local variables of the error branch that are defined once, before the guard, and never assigned again: the
+	// guard may be written with their help
+	inl := newInliner(path, f, recv)
+	locals := map[string]ast.Expr{}
+	assignments := map[string]int{}
+
+	ast.Inspect(fn, func(n ast.Node) bool {
+		switch v := n.(type) {
+		case *ast.AssignStmt:
+			for _, l := range v.Lhs {
+				assignments[render(l)]++
+			}
+		case *ast.IncDecStmt:
+			assignments[render(v.X)]++
+		case *ast.UnaryExpr:
+			if v.Op == token.AND {
+				assignments[render(v.X)] += 2 //nolint:mnd
+			}
+		}
+
+		return true
+	})
+
+	definesCondition := func(v *ast.AssignStmt) bool {
+		if v.Tok != token.DEFINE || len(v.Lhs) != 1 || len(v.Rhs) != 1 || guardIf != nil {
+			return false
+		}
+
+		id, ok := v.Lhs[0].(*ast.Ident)
+		if !ok || id.Name == "_" || assignments[id.Name] != 1 {
+			return false
+		}
+
+		for _, taken := range []string{subVar, errVar, idx, item, recv} {
+			if id.Name == taken {
+				return false
+			}
+		}
+
+		val := inl.expr(v.Rhs[0], locals, nil, 0)
+		if strings.Contains(render(val), ".Execute(") {
+			return false
+		}
+
+		locals[id.Name] = paren(val)
+
+		return true
+	}
+
 	for _, st := range errBranch.Body.List {
 		switch v := st.(type) {
 		case *ast.ExprStmt:
@@ -518,6 +866,10 @@ func composite(path string) string {
 
 			breaks = true
 		case *ast.IncDecStmt, *ast.AssignStmt:
+			if as, ok := v.(*ast.AssignStmt); ok && definesCondition(as) {
+				continue
+			}
+
 			if !harmless(v) {
 				fail(v, "unexpected statement in the error branch: %s", render(v))
 			}
@@ -557,8 +909,11 @@ func composite(path string) string {
 		fail(guardIf, "fallback branch does not continue")
 	}
 
-	// guard: conjunction of disjunctions
-	for _, conj := range disjuncts(guardIf.Cond, token.LAND) {
+	// guard: the bound check and ONE disjunction, after calls of helpers of the package and local variables have been
+	// replaced by what they stand for; every further conjunct is a condition the model does not know
+	decided := false
+
+	for _, conj := range disjuncts(inl.expr(guardIf.Cond, locals, nil, 0), token.LAND) {
 		r := render(strip(conj))
 		if r == idx+" < len("+recv+")" || r == idx+" < len("+recv+")-1" {
 			g.boundCheck = true
@@ -566,8 +921,15 @@ func composite(path string) string {
 			continue
 		}
 
-		ds := disjuncts(conj, token.LOR)
-		for _, d := range ds {
+		if decided {
+			g.other = append(g.other, r)
+
+			continue
+		}
+
+		decided = true
+
+		for _, d := range disjuncts(conj, token.LOR) {
 			rd := render(strip(d))
 
 			switch {
